@@ -15,7 +15,7 @@ assert demo, "no demo"
 for f in demo: shutil.copy(os.path.join(wt, f), d + "/" + f)
 def run(repo, f):
     env = dict(os.environ, PYTHONPATH="%s:/tmp/mutkit" % repo, PYTHONHASHSEED="0")
-    return subprocess.run(["/venv/bin/python", os.path.join(wt, f)], cwd=repo, env=env, capture_output=True, text=True, timeout=1800)
+    return subprocess.run(["/venv/bin/python", os.path.join(d, f)], cwd=repo, env=env, capture_output=True, text=True, timeout=1800)
 r0 = run("/repo", demo[0]); r1 = run(wt, demo[0])
 ok_demo = r0.returncode == 0 and r1.returncode != 0
 # patch must apply to /repo as it is now
